@@ -222,7 +222,8 @@ class NetSim(BaseEngine):
         sim_s = 0.0
         try:
             try:
-                self._addresses(plan, stats)
+                if plan.get('addresses', True):
+                    self._addresses(plan, stats)
                 if plan['scn'] == 1:
                     sim_s, final = self._scn1(plan, log, stats, cov)
                 elif plan['scn'] == 2:
